@@ -10,6 +10,7 @@ final collection must leave the same stored functions.
 import json
 import os
 import pickle
+import sys
 
 from .. import env, run, sweep
 from .. import oracle as O
@@ -263,7 +264,27 @@ def bdd_faults(m, refs, names):
     A(('to_nx unknown', lambda: _bdd.to_nx(m, [99999])))
     A(('configure unknown', lambda: m.configure(bogus=1)))
     A(('is_essential unknown node', lambda: m.is_essential(99999, x)))
+    A((FULL, lambda: _full(m, u, v, names)))
     return F
+
+
+FULL = 'node creation in a full manager'
+F18 = 'full-manager-inside-dynamic-reordering'
+
+
+def _full(m, u, v, names):
+    # `max_nodes` reached: the call that needs one more node is refused
+    old = m.max_nodes
+    m.max_nodes = m._min_free + 1
+    try:
+        for nm in names:
+            m.var(nm)
+        m.apply('xor', u, v)
+        m.apply('and', u, -v)
+        m.apply('or', u, m.var(names[-1]))
+        raise ValueError('no node was created: fault not applicable in this state')
+    finally:
+        m.max_nodes = old
 
 
 # rejected formulas with a VALID @node operand before the offending token
@@ -397,6 +418,18 @@ class FaultBdd(BddMachine):
             plans.append((k,))
         for fi, label in enumerate(labels):
             for plan in plans:
+                if label == FULL and self.reordering is not None:
+                    # known finding F18: judged, recorded under its own signature, and the
+                    # state is explored further
+                    try:
+                        self.inject(blob, fi, label, plan)
+                    except Violation as v:
+                        if self.rep is not None:
+                            self.rep.violation(
+                                F18, v.what, dict(machine=self.name, fault=label,
+                                                  plan=list(plan)), **v.detail)
+                            self.rep.mark('full_inside_reordering', v.what)
+                    continue
                 self.inject(blob, fi, label, plan)
 
     def inject(self, blob, fi, label, plan):
@@ -796,6 +829,179 @@ def task_tokens(t):
     return rep
 
 
+# ------------------------------------------------------------------ interruption sweep
+
+def _interrupt_ops(names):
+    """Valid operations (label, thunk(m, refs) -> reference / list / None)."""
+    a, b, c = names[0], names[1], names[-1]
+    rev = {n: len(names) - 1 - i for i, n in enumerate(names)}
+
+    def _copy_out(m, u):
+        other = S.new_bdd({n: i for i, n in enumerate(reversed(names))})
+        _bdd.copy_bdd(u, m, other)
+
+    def _dump_load(m, u):
+        fname = 'c17-int-%d.p' % os.getpid()
+        try:
+            m.dump(fname, roots=[u])
+            return m.load(fname)[0]
+        finally:
+            if os.path.exists(fname):
+                os.remove(fname)
+
+    def _release(m, v):
+        m.decref(v)
+        m.collect_garbage()
+    return [
+        ('and', lambda m, u, v: m.apply('and', u, -v)),
+        ('xor', lambda m, u, v: m.apply('xor', u, v)),
+        ('ite', lambda m, u, v: m.ite(u, -v, m.var(c))),
+        ('exist', lambda m, u, v: m.exist({a}, m.apply('or', u, v))),
+        ('forall', lambda m, u, v: m.forall([b], u)),
+        ('let fn', lambda m, u, v: m.let({a: v}, u)),
+        ('let const', lambda m, u, v: m.let({b: True}, u)),
+        ('let rename', lambda m, u, v: m.let({a: c}, m.exist({c}, u))),
+        ('add_expr', lambda m, u, v: m.add_expr('(%s \\/ ~ %s) /\\ (%s => %s)' % (a, c, b, a))),
+        ('add_expr @', lambda m, u, v: m.add_expr('@%d # %s' % (u, c))),
+        ('cube', lambda m, u, v: m.cube({a: True, c: False})),
+        ('var', lambda m, u, v: m.var(c)),
+        ('find_or_add', lambda m, u, v: m.find_or_add(m.vars[c], -1, 1)),
+        ('swap', lambda m, u, v: m.swap(0, 1)),
+        ('swap low', lambda m, u, v: m.swap(len(names) - 2, len(names) - 1)),
+        ('sift', lambda m, u, v: _bdd.reorder(m)),
+        ('reorder', lambda m, u, v: _bdd.reorder(m, rev)),
+        ('collect', lambda m, u, v: m.collect_garbage()),
+        ('release+collect', _release),
+        ('copy out', lambda m, u, v: _copy_out(m, u)),
+        ('dump+load', lambda m, u, v: _dump_load(m, u)),
+        ('add_var', lambda m, u, v: m.add_var('_fresh')),
+        ('undeclare', lambda m, u, v: m.undeclare_vars()),
+        ('count', lambda m, u, v: m.count(u, len(names)) and None),
+        ('pick_iter', lambda m, u, v: list(m.pick_iter(u)) and None),
+        ('to_expr', lambda m, u, v: m.to_expr(u) and None),
+        ('support', lambda m, u, v: m.support(v) and None),
+        ('descendants', lambda m, u, v: m.descendants([u, v]) and None),
+        ('image', lambda m, u, v: _bdd.image(u, v, {a: c}, {c}, m)),
+    ]
+
+
+INTERRUPT_DEPTHS = 120
+
+
+def _with_limit(d, fn):
+    """Run fn() with room for exactly d more Python frames than this one."""
+    import inspect
+    old = sys.getrecursionlimit()
+    here = len(inspect.stack(0))
+    sys.setrecursionlimit(here + d)
+    try:
+        return fn()
+    finally:
+        sys.setrecursionlimit(old)
+
+
+def task_interrupt(t):
+    """A valid call cut short by RecursionError at EVERY depth it can be cut at.
+
+    The call is given room for d = 2, 3, ... more frames until it succeeds; after each
+    interrupted attempt the manager is judged like after any rejected call, the same call
+    is repeated with the normal limit and compared with an uninterrupted copy, then a
+    collection and the invariant again."""
+    _, which, seedlabel, focus = t
+    rep = run.Report()
+    rec = sweep.Rec(rep)
+    names = ('x', 'y', 'z', 'w')
+    mach = FaultBdd(names, max_handles=3, max_ext=1)
+    U = mach.U
+    base = mach.seed(seedlabel)
+    base.m.apply('or', base.h[0][0], base.h[1][0])      # some garbage, warm cache
+    if which == 'dyn':
+        base.m.configure(reordering=True)
+        base.m._last_len = 2.0
+    blob = pickle.dumps(base, pickle.HIGHEST_PROTOCOL)
+    for label, op in _interrupt_ops(names):
+        if focus is not None and focus[0] != label:
+            continue
+        # the uninterrupted outcome
+        ref_ = pickle.loads(blob)
+        want_exc = None
+        try:
+            r0 = op(ref_.m, ref_.h[0][0], ref_.h[1][0])
+        except Exception as e:  # noqa
+            want_exc = type(e).__name__
+            r0 = None
+            del e
+        if want_exc is not None:
+            continue        # not a valid call in this state (e.g. nothing to undeclare)
+        want = O.Den(ref_.m, U)(r0) if isinstance(r0, int) and not isinstance(r0, bool) else None
+        cut = 0
+        for d in range(2, INTERRUPT_DEPTHS):
+            if focus is not None and focus[1] != d:
+                continue
+            st = pickle.loads(blob)
+            u, v = st.h[0][0], st.h[1][0]
+            raised = None
+            try:
+                _with_limit(d, lambda: op(st.m, u, v))
+            except Exception as e:  # noqa
+                raised = type(e).__name__
+                del e
+            rep.add('evaluations')
+            if raised is None:
+                if focus is None:
+                    break
+                continue
+            cut += 1
+            rep.add('nontrivial')
+            rep.mark('exception_classes', raised)
+            case = dict(task=(t[0], which, seedlabel, [label, d]), operation=label, frames=d,
+                        exception=raised)
+            if label == 'release+collect':
+                # the release itself may or may not have happened: settle it
+                if st.m._ref[abs(v)] == ref_count(blob, v):
+                    st.m.decref(v)
+                st.h[1][1] = 0
+            try:
+                if raised == '_NeedsReordering':
+                    raise Violation('the internal reordering signal reached the caller')
+                BddMachine.invariant(mach, st)
+                if label != 'release+collect':
+                    st.m.configure(reordering=False)
+                    r = op(st.m, u, v)
+                    if want is not None and O.Den(st.m, U)(r) != want:
+                        raise Violation('a call repeated after an interruption gives another '
+                                        'function than the uninterrupted call')
+                st.m.collect_garbage()
+                BddMachine.invariant(mach, st)
+            except Violation as v_:
+                rec('interrupt:' + v_.what + '|' + label, 'after an interrupted call: ' + v_.what,
+                    case, **v_.detail)
+            except Exception as e:  # noqa
+                rec('interrupt-next-raises:' + type(e).__name__ + '|' + label,
+                    'after an interrupted call the same call raised %r' % (e,), case)
+        rep.max('interrupt_points_max', cut)
+        rep.add('interrupt_points', cut)
+    rep.sample(dict(kind='interrupted valid call', operation='and', frames=7,
+                    manager='dd.bdd seed %s, reordering %s' % (seedlabel, which)))
+    return rep
+
+
+def ref_count(blob, v):
+    st = pickle.loads(blob)
+    return st.m._ref[abs(v)]
+
+
+def interrupt_plan():
+    return [('interrupt', which, sl, None) for which in ('off', 'dyn')
+            for sl in ('used', 'warm')]
+
+
+def _dispatch_task(t):
+    if t[0] == 'interrupt':
+        return task_interrupt(t)
+    return task_tokens(t)
+
+
 def machines(tier):
     q = tier == 'quick'
     base = dict(max_handles=2, max_ext=1, ops=('and', 'xor'), with_ite=False, with_foa=False,
@@ -821,7 +1027,7 @@ def machines(tier):
     return [(mm, d) for _, mm, d in pl]
 
 
-_by_task = sweep.replay_by_task(lambda t: task_tokens(t))
+_by_task = sweep.replay_by_task(_dispatch_task)
 
 
 def replay(case):
@@ -837,7 +1043,8 @@ def replay(case):
 
 def main(tier, t0):
     rep = run.Report()
-    run.pmerge(task_tokens, [('tokens', 'off', None), ('tokens', 'dyn', None)], rep)
+    run.pmerge(_dispatch_task, [('tokens', 'off', None), ('tokens', 'dyn', None)]
+               + interrupt_plan(), rep)
     run.close_pool()
     total = dict(states=0, transitions=0, validated=0)
     bounds = {}
